@@ -29,13 +29,14 @@ META["explanation"] += ' R02.1 (closed test and waker push in one critical secti
 META["explanation"] += " R20.6 only the state's waker list may hold a Waker: no handle type (Subscriber, its lock-flavour states) has a field whose type contains std::task::Waker."
 META["explanation"] += ' Shared with C19: R19.9 (type ledger: only the counted handles own a strong state reference - a WeakObservable or a guard that owns one keeps the value alive and closes reference cycles) and R19.11 (no hidden handle moved into a returned future / closure).'
 META["explanation"] += " R20.5 marker-impl-bound (engine/rules/autotrait.py): for every `unsafe impl<T: ..> Send for X<T>` the markers T needs are computed from the types X stores (fields; for a type-erased reusable box the parameter types of the async fn whose future X puts into it) by structural recursion with a small trusted table for external containers, and must be among the impl's declared bounds (re-derives F8, repaired by 7b0ee1a); the Send witness must instantiate make_recv_future with the stored message type."
+META["explanation"] += ' RAW call list extended by SmallVec::from_buf_and_len / set_len / from_raw_parts (safe but leak-capable). Also evaluated: the C03 rule set (an owner Drop that skips the close leaves parked wakers in a cycle).'
 
 RAW = (r"^std::mem::forget$|ManuallyDrop::<.*>::(new|take|drop|into_inner)$|Box::<.*>::(into_raw|from_raw|leak|into_non_null|from_non_null)$|"
        r"Arc::<.*>::(into_raw|from_raw|increment_strong_count|decrement_strong_count)$|Rc::<.*>::(into_raw|from_raw)$|Weak::<.*>::(into_raw|from_raw)$|"
        r"^std::ptr::(read|write|drop_in_place|read_volatile|write_volatile|replace|swap|copy|copy_nonoverlapping|read_unaligned|write_unaligned)$|"
        r"mut_ptr::<impl \*mut T>::(write|read|drop_in_place|cast|add|offset|replace|swap)$|const_ptr::<impl \*const T>::(read|cast|add|offset)$|"
        r"unreachable_unchecked$|into_inner_unchecked$|new_unchecked$|get_unchecked(_mut)?$|map_unchecked(_mut)?$|MaybeUninit|::transmute(_copy)?$|assume_init|from_raw_parts(_mut)?$|"
-       r"Vec::<.*>::(set_len|leak|into_raw_parts)$|NonNull::<.*>::(new_unchecked|as_ref|as_mut)$|std::mem::(zeroed|uninitialized)$|String::<.*>::leak$")
+       r"Vec::<.*>::(set_len|leak|into_raw_parts)$|SmallVec::<.*>::(from_buf_and_len|from_buf_and_len_unchecked|set_len|from_raw_parts|into_raw_parts)$|ArrayVec::<.*>::set_len$|NonNull::<.*>::(new_unchecked|as_ref|as_mut)$|std::mem::(zeroed|uninitialized)$|String::<.*>::leak$")
 
 # the audited table: (crate, root fn, short callee) -> (count, obligation)
 AUDITED_CALLS = {
